@@ -175,8 +175,17 @@ impl Compiler {
     pub fn compile_ast(&mut self, ast: &BlockStmt) -> Result<Bytecode, Error> {
         // Call compile_statement on each child node directly
         // We don't re-use compile_block_statement here because it exits the global scope
+        let checkpoint = self.symbols.checkpoint();
         for s in ast {
-            self.compile_statement(s)?;
+            if let Err(e) = self.compile_statement(s) {
+                // Forget everything about the program that failed to compile (partial code with unpatched
+                // jumps, open scopes and loops, its declarations), so that this compiler can be used again.
+                self.instructions.clear();
+                self.last_instruction = None;
+                self.loop_contexts.clear();
+                self.symbols.rollback(checkpoint);
+                return Err(e);
+            }
         }
         self.emit_opcode(OpCode::Halt);
         self.instructions.shrink_to_fit();
